@@ -30,7 +30,8 @@ ASSUMPTIONS = ['alpha, shift rational (every float is); phases multiples of 1/L 
                'Gaussian-integer input data; comparison tolerance 1e-9*(1+max|model|)']
 RULE = ('random dft2/idft2/round-trip cases: shapes 1..7 (odd, even, 1, non-square), alpha_r, alpha_c = p/q independent, '
         'shifts k/4 or k/2, offsets in [-6,6], both flags, out in {None, complex buffer, f itself, float buffer, wrong shape} (dft2 and idft2); '
-        'histories of 2-4 dft2/idft2 calls on one (input shape, output shape) pair alternating shifted and unshifted calls, each decided as if made first; '
+        'large inputs (sides 31..33, 63..67, 101, 127..129; full-period FFT-equivalent calls and general ones; oracle only: '
+        'vectorised defining sum with exact integer phase reduction); histories of 2-4 dft2/idft2 calls on one (input shape, output shape) pair alternating shifted and unshifted calls, each decided as if made first; '
         'non-trivial = m*n>1 and at least two of {alpha_r!=alpha_c, shift!=0, offset!=0, MxN!=mxn}')
 
 TOL = 1e-9
@@ -41,7 +42,7 @@ def lcm(a, b):
 
 
 def case_L(c):
-    if c['op'] == 'hist':
+    if c['op'] in ('hist', 'large'):
         return 1
     ar, ac = Fraction(c['ar']), Fraction(c['ac'])
     sr, sc = Fraction(c.get('shr', 0)), Fraction(c.get('shc', 0))
@@ -89,9 +90,50 @@ def gen_history(rng, maxn):
         return c
 
 
+BIG_ROWS = [63, 65, 67, 101, 127]
+BIG_COLS = [64, 65, 66]
+DECADES = [31, 32, 33, 63, 64, 65, 66, 67, 127, 128, 129]
+
+
+def gen_large(rng, k):
+    """large inputs (size-dependent branches are a class): oracle only, data regenerated from a seed.
+    Even k: the FFT-equivalent call (alpha = 1/shape, same shape, no shift/offset) on odd x {even, odd} shapes;
+    odd k: a large call that is not FFT-equivalent (shift, offset, alpha != 1/n or another output shape)"""
+    if k % 2 == 0:
+        m, n = rng.choice(BIG_ROWS), rng.choice(BIG_COLS)
+        if rng.random() < 0.3:
+            m, n = n, m
+        if rng.random() < 0.25:
+            m, n = rng.choice(DECADES), rng.choice(DECADES)
+        return {'op': 'large', 'fn': rng.choice(['dft2', 'dft2', 'idft2', 'roundtrip']), 'm': m, 'n': n,
+                'seed': rng.randrange(10 ** 6), 'ar': f'1/{m}', 'ac': f'1/{n}', 'M': m, 'N': n,
+                'shr': '0', 'shc': '0', 'offr': 0, 'offc': 0, 'unitary': rng.random() < 0.5,
+                'forms': rng.choice(['tuple', 'tuple', 'default'])}
+    m, n = rng.choice(DECADES), rng.choice(DECADES)
+    var = rng.choice(['shift', 'offset', 'alpha', 'shape', 'all'])
+    c = {'op': 'large', 'fn': rng.choice(['dft2', 'dft2', 'idft2']), 'm': m, 'n': n, 'seed': rng.randrange(10 ** 6),
+         'ar': f'1/{m}', 'ac': f'1/{n}', 'M': m, 'N': n, 'shr': '0', 'shc': '0', 'offr': 0, 'offc': 0,
+         'unitary': rng.random() < 0.5, 'forms': 'tuple'}
+    if var in ('shift', 'all'):
+        c['shr'] = str(Fraction(rng.randint(-9, 9), rng.choice([1, 2, 4])))
+        c['shc'] = str(Fraction(rng.randint(-9, 9), rng.choice([1, 2, 4])))
+    if var in ('offset', 'all') and c['fn'] == 'dft2':
+        c['offr'], c['offc'] = rng.randint(-20, 20), rng.randint(-20, 20)
+    if var in ('alpha', 'all'):
+        c['ar'] = str(Fraction(rng.choice([1, 1, 2, 3]), rng.choice([m - 1, m + 1, 2 * m, 48])))
+        c['ac'] = str(Fraction(rng.choice([1, 1, 2, -1]), rng.choice([n + 1, 2 * n, n + 3, 40])))
+    if var in ('shape', 'all'):
+        c['M'], c['N'] = rng.choice(DECADES[:8]), rng.choice(DECADES[:8])
+    if var == 'offset' and c['fn'] == 'idft2':
+        c['shr'] = '1/2'
+    return c
+
+
 def generate(rng, tier):
     n_cases = 160 if tier == 'quick' else 2500
     maxn = 6 if tier == 'quick' else 7
+    for k in range(12 if tier == 'quick' else 120):
+        yield gen_large(rng, k)
     for _ in range(40 if tier == 'quick' else 400):
         yield gen_history(rng, maxn)
     out = 0
@@ -121,6 +163,15 @@ def generate(rng, tier):
         else:
             c = {'op': 'roundtrip', 'f': rnd_data(rng, m, n), 'ar': str(Fraction(1, m)), 'ac': str(Fraction(1, n)),
                  'M': m, 'N': n, 'unitary': rng.random() < 0.5}
+        if c['op'] in ('dft2', 'idft2') and c.get('out') != 'self' and rng.random() < 0.25:
+            # the documented argument forms: scalar alpha / shape, ndarray or list arguments, array_like (list, integer) input
+            c['forms'] = rng.choice(['scalar', 'scalar', 'ndarray', 'list_input', 'int_input'])
+            if c['forms'] == 'scalar':
+                c['ac'] = c['ar']
+                if rng.random() < 0.7:
+                    c['N'] = c['M']
+            if c['forms'] == 'int_input':
+                c['f'] = [[[v[0], 0] for v in row] for row in c['f']]
         if case_L(c) > 96:
             continue
         out += 1
@@ -128,12 +179,19 @@ def generate(rng, tier):
 
 
 def classify(c):
+    if c['op'] == 'large':
+        fftlike = (c['ar'], c['ac'], c['M'], c['N'], c['shr'], c['shc'], c['offr'], c['offc']) == \
+                  (f'1/{c["m"]}', f'1/{c["n"]}', c['m'], c['n'], '0', '0', 0, 0)
+        return 'large/' + c['fn'] + ('/full-period' if fftlike else '/general') + ('/unitary' if c['unitary'] else '')
     if c['op'] == 'hist':
         return 'hist/' + '-'.join(cl['fn'] + ('*' if Fraction(cl['shr']) != 0 or Fraction(cl['shc']) != 0 else '') for cl in c['calls'])
-    return c['op'] + ('/' + c.get('out', 'none') if c['op'] in ('dft2', 'idft2') else '') + ('/unitary' if c.get('unitary') else '')
+    return (c['op'] + ('/' + c.get('out', 'none') if c['op'] in ('dft2', 'idft2') else '') + ('/unitary' if c.get('unitary') else '')
+            + ('/' + c['forms'] if c.get('forms') else ''))
 
 
 def nontrivial(c):
+    if c['op'] == 'large':
+        return True
     if c['op'] == 'hist':
         return len(c['calls'][0]['f']) * len(c['calls'][0]['f'][0]) > 1
     m, n = len(c['f']), len(c['f'][0])
@@ -170,6 +228,8 @@ def enc_out(c):
 
 
 def encode(c):
+    if c['op'] == 'large':
+        return None          # too large for the exact group ring: decided by the vectorised defining sum (oracle)
     L = case_L(c)
     if c['op'] == 'dft2':
         oe = enc_out(c)
@@ -251,32 +311,143 @@ def run_history(lentil, c):
     return {'calls': out}
 
 
+class Big(str):
+    """a large result array: a short description as far as JSON is concerned (it is regenerated by running the case),
+    the array itself in the attribute [a]"""
+    def __new__(cls, a):
+        a = np.asarray(a)
+        o = super().__new__(cls, f'<{a.shape[0]}x{a.shape[1]} complex array, max|.|={float(np.max(np.abs(a))):.6g}>')
+        o.a = a
+        return o
+
+
+def large_data(c):
+    g = np.random.default_rng(c['seed'])
+    d = g.integers(-8, 9, size=(2, c['m'], c['n']))
+    return (d[0] + 1j * d[1]).astype(complex)
+
+
+def run_large(lentil, c):
+    f = large_data(c)
+    alpha = (float(Fraction(c['ar'])), float(Fraction(c['ac'])))
+    shift = (float(Fraction(c['shr'])), float(Fraction(c['shc'])))
+    try:
+        if c['fn'] == 'roundtrip' or c.get('forms') == 'default':
+            # the documented default forms: shape=None, no shift / offset arguments
+            if c['fn'] == 'dft2':
+                return {'np': Big(lentil.fourier.dft2(f, alpha, unitary=c['unitary']))}
+            if c['fn'] == 'idft2':
+                return {'np': Big(lentil.fourier.idft2(f, alpha, unitary=c['unitary']))}
+            F = lentil.fourier.dft2(f, alpha, unitary=c['unitary'])
+            return {'np': Big(lentil.fourier.idft2(F, alpha, unitary=c['unitary'])), 'fwd': Big(F)}
+        if c['fn'] == 'dft2':
+            return {'np': Big(lentil.fourier.dft2(f, alpha, shape=(c['M'], c['N']), shift=shift, offset=(c['offr'], c['offc']),
+                                                  unitary=c['unitary']))}
+        return {'np': Big(lentil.fourier.idft2(f, alpha, shape=(c['M'], c['N']), shift=shift, unitary=c['unitary']))}
+    except Exception as e:
+        return {'err': type(e).__name__}
+
+
+def kernel_matrix(alpha, n, off, shift, N):
+    """exp(-2 pi i alpha (x - n//2 + off)(u - N//2 - shift)) as an (n x N) matrix, the phase reduced EXACTLY modulo one
+    turn in integer arithmetic before the floating-point exponential"""
+    den = alpha.denominator * shift.denominator
+    X = np.arange(n, dtype=object) - n // 2 + off
+    U = (np.arange(N, dtype=object) - N // 2) * shift.denominator - shift.numerator
+    K = (alpha.numerator * np.outer(X, U)) % den
+    return np.exp(-2j * np.pi * (K.astype(np.float64) / float(den)))
+
+
+def defining_sum_np(f, ar, ac, M, N, shr, shc, offr, offc, unitary):
+    E1 = kernel_matrix(ar, f.shape[0], offr, shr, M)          # (m x M)
+    E2 = kernel_matrix(ac, f.shape[1], offc, shc, N)          # (n x N)
+    F = E1.T @ f @ E2
+    return F * math.sqrt(abs(float(ar * ac))) if unitary else F
+
+
+def oracle_large(c, impl):
+    if 'err' in impl:
+        return f'{c["fn"]} on a {c["m"]}x{c["n"]} input raised {impl["err"]}'
+    f = large_data(c)
+    ar, ac = Fraction(c['ar']), Fraction(c['ac'])
+    shr, shc = Fraction(c['shr']), Fraction(c['shc'])
+    got = impl['np'].a
+    where = f'{c["m"]}x{c["n"]} input -> {c["M"]}x{c["N"]} output, alpha=({c["ar"]}, {c["ac"]}), unitary={c["unitary"]}'
+    if c['fn'] == 'dft2':
+        exp = defining_sum_np(f, ar, ac, c['M'], c['N'], shr, shc, c['offr'], c['offc'], c['unitary'])
+        msg = arr_close(got, exp)
+        return f'dft2 is not the defining Fourier sum ({where}): ' + msg if msg else None
+    if c['fn'] == 'idft2':
+        exp = np.conj(defining_sum_np(np.conj(f), ar, ac, c['M'], c['N'], shr, shc, 0, 0, c['unitary']))
+        if not c['unitary']:
+            exp = exp / f.size
+        msg = arr_close(got, exp)
+        return f'idft2 is not the conjugate-kernel sum with the stated normalisation ({where}): ' + msg if msg else None
+    fwd = impl['fwd'].a
+    msg = arr_close(fwd, defining_sum_np(f, ar, ac, c['M'], c['N'], shr, shc, 0, 0, c['unitary']))
+    if msg:
+        return f'dft2 is not the defining Fourier sum ({where}): ' + msg
+    msg = arr_close(got, f)
+    if msg:
+        return f'idft2(dft2(f)) != f over one full period ({where}): ' + msg
+    if c['unitary']:
+        e_in, e_out = float(np.sum(np.abs(f) ** 2)), float(np.sum(np.abs(fwd) ** 2))
+        if abs(e_in - e_out) > 1e-9 * (1 + e_in):
+            return f'unitary transform over one period does not conserve energy ({where}): {e_in} -> {e_out}'
+    return None
+
+
+def call_forms(c, f):
+    """the arguments in one of the documented forms (alpha: float or array_like; shape: int or array_like; shift, offset:
+    array_like; f: array_like)"""
+    ar, ac = float(Fraction(c['ar'])), float(Fraction(c['ac']))
+    shift = (float(Fraction(c['shr'])), float(Fraction(c['shc'])))
+    shape = (c['M'], c['N'])
+    offset = (c.get('offr', 0), c.get('offc', 0))
+    alpha = (ar, ac)
+    form = c.get('forms', 'tuple')
+    if form == 'scalar':
+        if c['ar'] == c['ac']:
+            alpha = ar
+        if c['M'] == c['N']:
+            shape = c['M']
+    elif form == 'ndarray':
+        alpha, shape, shift, offset = np.array(alpha), np.array(shape), np.array(shift), np.array(offset)
+    elif form == 'list_input':
+        alpha, shape, shift, offset = list(alpha), list(shape), list(shift), list(offset)
+        f = [[complex(v) for v in row] for row in f]
+    elif form == 'int_input':
+        f = np.array([[int(v[0]) for v in row] for row in c['f']], dtype=np.int64)
+    return f, alpha, shape, shift, offset
+
+
 def run_impl(c):
     lentil = C.import_lentil()
     fresh_state()
     if c['op'] == 'hist':
         return run_history(lentil, c)
+    if c['op'] == 'large':
+        return run_large(lentil, c)
     f = to_np(c['f'])
     alpha = (float(Fraction(c['ar'])), float(Fraction(c['ac'])))
     try:
         if c['op'] == 'dft2':
-            shift = (float(Fraction(c['shr'])), float(Fraction(c['shc'])))
             out = make_out(c, f)
-            F = lentil.fourier.dft2(f, alpha, shape=(c['M'], c['N']), shift=shift, offset=(c['offr'], c['offc']),
-                                    unitary=c['unitary'], out=out)
+            fa, alpha, shape, shift, offset = call_forms(c, f)
+            F = lentil.fourier.dft2(fa, alpha, shape=shape, shift=shift, offset=offset, unitary=c['unitary'], out=out)
             res = {'arr': np.asarray(F).tolist(), 'same_buffer': (out is not None and F is out)}
             if out is not None and not np.array_equal(np.asarray(out), np.asarray(F)):
                 res['out_differs'] = True
             return res
         if c['op'] == 'idft2':
-            shift = (float(Fraction(c['shr'])), float(Fraction(c['shc'])))
             out = make_out(c, f)
-            F = lentil.fourier.idft2(f, alpha, shape=(c['M'], c['N']), shift=shift, unitary=c['unitary'], out=out)
+            fa, alpha, shape, shift, _ = call_forms(c, f)
+            F = lentil.fourier.idft2(fa, alpha, shape=shape, shift=shift, unitary=c['unitary'], out=out)
             res = {'arr': np.asarray(F).tolist(), 'same_buffer': (out is not None and F is out)}
             if out is not None:
                 if not np.array_equal(np.asarray(out), np.asarray(F)):
                     res['out_differs'] = True
-                fresh = lentil.fourier.idft2(f, alpha, shape=(c['M'], c['N']), shift=shift, unitary=c['unitary'])
+                fresh = lentil.fourier.idft2(fa, alpha, shape=shape, shift=shift, unitary=c['unitary'])
                 res['fresh'] = np.asarray(fresh).tolist()
             return res
         if c['op'] == 'roundtrip':
@@ -336,6 +507,8 @@ def defining_sum(f, ar, ac, M, N, shr, shc, offr, offc, unitary):
 
 
 def oracle(c, impl):
+    if c['op'] == 'large':
+        return oracle_large(c, impl)
     if c['op'] == 'hist':
         for k, (cl, r) in enumerate(zip(c['calls'], impl['calls'])):
             one = {'op': cl['fn'], 'f': cl['f'], 'ar': c['ar'], 'ac': c['ac'], 'M': c['M'], 'N': c['N'],
